@@ -102,7 +102,8 @@ lines.append("## 10a. Sensitivity results: seeded changes and which checks catch
 lines.append("Every change below was written by a fresh sub-agent that was given only the text of one property and a scratch")
 lines.append("worktree (nothing from /verif); the `w4` changes come from a fourth, module-centric wave whose agents were given the")
 lines.append("texts of all 20 properties and one source file each, and named the property their change breaks; the `w5` changes")
-lines.append("come from the fifth wave (unusual but legal use, section 10). Each change was")
+lines.append("come from the fifth wave (unusual but legal use, section 10), the `w6` changes from the sixth (follow-up session, one")
+lines.append("change per agent, full pass with all checks, `tools/passes/results.w6.jsonl`). Each change was")
 lines.append("confirmed here in a scratch worktree: it applies to /repo's HEAD, the")
 lines.append("existing 70 tests + 5 doctests pass with it, its demonstration fails with it and passes without it. The checks were")
 lines.append("then run (quick tier, default seed) against the patched worktree; the table is from the final pass with the final")
